@@ -724,6 +724,14 @@ class HistoryGen:
             a = [old, new]
             if rng.random() < 0.5:
                 a.append(rng.choice([-1, 0, 1, 2]))
+            # keep results observable: many matches x a long replacement would give texts of 10^4..10^5 characters,
+            # on which the per-character observation of the monitors (quadratic in the library) takes minutes
+            try:
+                newlen = len(self.ex.pool[new['$']].base_str) if isinstance(new, dict) and '$' in new else len(new)
+            except Exception:
+                newlen = n
+            if old and v.base_str.count(old) * newlen > 2000:
+                a[2:] = [rng.choice([1, 2])]
             k = {'inplace': True} if is_mut and rng.random() < 0.35 else {}
             return {'m': 'replace', 'r': ri, 'a': a, 'k': k}
         if kind == 'expandtabs':
